@@ -217,7 +217,25 @@ CLAIMED["C07"] = (
     "DESIGN.md §3 C07",
     "Known findings (true == 1 across kinds and hashes) are listed; host Object::custom_cmp implementations are outside the analysis.")
 
+CLAIMED["C01"] = (
+    "call-graph cycle rule with guard-dominated edges removed (parser recursion) + loop-carried AST wrap detection + intra-procedural taint of template-controlled integers into MIR overflow/zero asserts and allocation sizes + presence of explicit limits",
+    "Static check of the structural clauses of the property only: (P1) every cycle of the recursive-descent parser's "
+    "call graph passes a call site dominated by the depth guard; (P2) parser loops that nest the expression built so "
+    "far into a new node are bounded by a counter (13 unbounded ones are listed as known findings); (P3) integers "
+    "that come from template values reach overflow-capable arithmetic (MIR Assert Overflow/DivisionByZero) and "
+    "allocation sizes only through checked/saturating operations, 128-bit arithmetic on widened operands, a "
+    "dominating constant bound, or a reviewed entry with its reason; (P6) the explicit limits the property names are "
+    "present and guard what they should.  Interpreter recursion is decided under C11.  These are necessary "
+    "conditions that realistic regressions break (a dropped guard, a new unchecked add, an unbounded capacity); "
+    "absence of panics over the whole engine, VM operand-stack discipline and the stack cost of data recursion are "
+    "NOT decided.",
+    "DESIGN.md §3 C01",
+    "Partial claim.  The taint sources are integer parameters of the builtin modules and integer conversions of template values; arithmetic on other integers is out of scope.")
+
 NOT_APPLICABLE = {
+    "C03": "equality of rendered output with a reference semantics over all programs x contexts quantifies over runtime values; its structural part (frame/capture/escape pairing, jump nesting) is decided under C05, nothing else is visible in the shape of the code, and a reference interpreter would be a different technique",
+    "C09": "Python slice semantics over (kind, len, start, stop, step) is integer arithmetic on runtime values: no sound static argument in reach bounds it; the panics the slicing code hid (empty / inverted / extreme bounds) were found by the C01 taint rule and repaired, but the selected elements are value-level and not claimed",
+    "C10": "byte-exact text reproduction and whitespace control under every delimiter configuration is string arithmetic over runtime text (lexer offsets); no clause of it is visible in the shape of the code beyond what C14 checks for span provenance, and a brittle text proxy would raise false alarms",
 }
 
 PENDING = "rule engine for this property is not finished / not yet validated both ways in this revision (see DESIGN.md §7); not claimed until it is"
